@@ -124,6 +124,9 @@ pub struct HuffMachine<B: Sym> {
     setup_error: Option<String>,
     items: Vec<Vec<B>>,
     tags: Vec<String>,
+    /// start from a raw (generation 0) container: the coded container built from the profile is cleared first,
+    /// the item alphabet stays the profile's
+    raw_start: bool,
 }
 
 const OP_MERGE: u32 = 5000;
@@ -148,7 +151,14 @@ impl<B: Sym> HuffMachine<B> {
             setup_error: None,
             items: vec![],
             tags: vec![],
+            raw_start: false,
         }
+    }
+
+    pub fn new_raw(profile: Profile, max_merges: usize) -> Self {
+        let mut m = Self::new(profile, max_merges);
+        m.raw_start = true;
+        m
     }
 
     fn empty_gen() -> Gen<B> {
@@ -474,7 +484,7 @@ fn show_counts<B: Sym>(c: &BTreeMap<B, u64>) -> String {
 
 impl<B: Sym> Machine for HuffMachine<B> {
     fn name(&self) -> String {
-        format!("huffman/{}/{}", B::TY, self.profile.name)
+        format!("huffman/{}/{}{}", B::TY, self.profile.name, if self.raw_start { "/raw-start" } else { "" })
     }
     fn reset(&mut self) {
         self.merges = 0;
@@ -490,6 +500,13 @@ impl<B: Sym> Machine for HuffMachine<B> {
             }
         }
         self.make_items();
+        if self.raw_start && self.setup_error.is_none() {
+            self.g.c.clear();
+            self.g.coded = false;
+            self.g.issued.clear();
+            self.g.pushed.clear();
+            self.g.code_counts.clear();
+        }
     }
     fn enabled(&self) -> Vec<OpId> {
         if self.setup_error.is_some() {
@@ -882,6 +899,191 @@ impl<B: Sym> Machine for HuffBuildMachine<B> {
             }
         }
         self.tags.push(format!("built:symbols{}", n));
+        Step::Ok
+    }
+    fn fingerprint(&self) -> Option<String> {
+        None
+    }
+    fn drain_tags(&mut self) -> Vec<String> {
+        std::mem::take(&mut self.tags)
+    }
+}
+
+// ---------------------------------------------------------------------------------------------
+// C11 over a Huffman container: `CollapseSequence<HuffmanContainer<u8>>` must collapse an item equal to the
+// previous one whatever representation it arrives in (borrowed, read item of a raw container, read item of a
+// container coded with the same or with another code table), and must not collapse unequal ones.
+
+use flatcontainer::impls::deduplicate::CollapseSequence;
+
+type CH = CollapseSequence<HuffmanContainer<u8>>;
+
+pub struct HuffCollapseMachine {
+    dst: CH,
+    coded: bool,
+    covered: std::collections::BTreeSet<u8>,
+    /// symbols stored (not collapsed) since creation / clear: the statistics a merge would see
+    stored_syms: std::collections::BTreeSet<u8>,
+    last: Option<(Vec<u8>, (usize, usize))>,
+    issued: Vec<((usize, usize), Vec<u8>)>,
+    merges: usize,
+    tags: Vec<String>,
+}
+
+const HC_ITEMS: [&[u8]; 6] = [&[], &[1], &[3], &[1, 1, 2], &[3, 3, 2], &[1, 2, 3]];
+const HC_FORMS: [&str; 4] = [
+    "borrowed from an owned Vec",
+    "read item of a raw container",
+    "read item of a container coded with another table (symbol 1 frequent)",
+    "read item of a container coded with the destination's kind of table (symbol 3 frequent)",
+];
+const HC_CLEAR: u32 = 100;
+const HC_MERGE: u32 = 101;
+
+fn hc_coded(frequent: u8) -> HuffmanContainer<u8> {
+    let mut stats = HuffmanContainer::<u8>::default();
+    for _ in 0..8 {
+        let _ = stats.push([frequent, frequent, frequent]);
+    }
+    let _ = stats.push([1u8, 2, 3]);
+    HuffmanContainer::merge_regions(std::iter::once(&stats))
+}
+
+impl HuffCollapseMachine {
+    pub fn new() -> Self {
+        HuffCollapseMachine {
+            dst: Default::default(),
+            coded: false,
+            covered: Default::default(),
+            stored_syms: Default::default(),
+            last: None,
+            issued: vec![],
+            merges: 0,
+            tags: vec![],
+        }
+    }
+}
+
+impl Machine for HuffCollapseMachine {
+    fn name(&self) -> String {
+        "collapse/CollapseSequence<HuffmanContainer<u8>>".into()
+    }
+    fn reset(&mut self) {
+        // a coded destination: merged from a collapsing region whose stored items make symbol 3 frequent
+        let mut stats = CH::default();
+        let (a, b) = (vec![3u8; 3], vec![3u8; 4]);
+        for _ in 0..4 {
+            let _ = stats.push(<<HuffmanContainer<u8> as Region>::ReadItem<'_> as IntoOwned>::borrow_as(&a));
+            let _ = stats.push(<<HuffmanContainer<u8> as Region>::ReadItem<'_> as IntoOwned>::borrow_as(&b));
+        }
+        let c = vec![1u8, 2, 3];
+        let _ = stats.push(<<HuffmanContainer<u8> as Region>::ReadItem<'_> as IntoOwned>::borrow_as(&c));
+        self.dst = CH::merge_regions(std::iter::once(&stats));
+        self.coded = true;
+        self.covered = [1u8, 2, 3].into_iter().collect();
+        self.stored_syms.clear();
+        self.last = None;
+        self.issued.clear();
+        self.merges = 0;
+        self.tags.clear();
+    }
+    fn enabled(&self) -> Vec<OpId> {
+        let mut v: Vec<OpId> = (0..(HC_ITEMS.len() * HC_FORMS.len()) as u32).collect();
+        v.push(HC_CLEAR);
+        if self.merges < 1 {
+            v.push(HC_MERGE);
+        }
+        v
+    }
+    fn describe(&self, op: OpId) -> String {
+        match op {
+            HC_CLEAR => "clear()".into(),
+            HC_MERGE => "replace by merge_regions([self])".into(),
+            o => format!("push({:?}) as {}", HC_ITEMS[o as usize / HC_FORMS.len()], HC_FORMS[o as usize % HC_FORMS.len()]),
+        }
+    }
+    fn step(&mut self, op: OpId) -> Step {
+        let what = self.describe(op);
+        match op {
+            HC_CLEAR => {
+                self.dst.clear();
+                self.coded = false;
+                self.covered.clear();
+                self.stored_syms.clear();
+                self.last = None;
+                self.issued.clear();
+            }
+            HC_MERGE => {
+                self.merges += 1;
+                let d = &self.dst;
+                match guard(|| CH::merge_regions(std::iter::once(d))) {
+                    Ok(m) => self.dst = m,
+                    Err(p) => return Step::Violation(format!("merge_regions panicked: {p}")),
+                }
+                self.coded = true;
+                self.covered = std::mem::take(&mut self.stored_syms);
+                self.last = None;
+                self.issued.clear();
+            }
+            o => {
+                let item: Vec<u8> = HC_ITEMS[o as usize / HC_FORMS.len()].to_vec();
+                let form = o as usize % HC_FORMS.len();
+                let known = !self.coded || item.iter().all(|s| self.covered.contains(s));
+                let dst = &mut self.dst;
+                let it = item.clone();
+                let res = guard(move || match form {
+                    0 => dst.push(<<HuffmanContainer<u8> as Region>::ReadItem<'_> as IntoOwned>::borrow_as(&it)),
+                    1 => {
+                        let mut donor = HuffmanContainer::<u8>::default();
+                        let _ = donor.push(vec![2u8]);
+                        let i = donor.push(it.as_slice());
+                        dst.push(donor.index(i))
+                    }
+                    f => {
+                        let mut donor = hc_coded(if f == 2 { 1 } else { 3 });
+                        let _ = donor.push(vec![2u8]);
+                        let i = donor.push(it.as_slice());
+                        dst.push(donor.index(i))
+                    }
+                });
+                let idx = match res {
+                    Ok(i) => i,
+                    Err(p) if !known => return Step::Refused(p),
+                    Err(p) => return Step::Violation(format!("{what} panicked although every symbol is covered by the statistics: {p}")),
+                };
+                match &self.last {
+                    Some((prev, pidx)) if *prev == item => {
+                        if idx != *pidx {
+                            return Step::Violation(format!(
+                                "{what}: equal to the previous item {:?} at {pidx:?}, but it was stored again at {idx:?} instead of collapsing",
+                                prev
+                            ));
+                        }
+                        self.tags.push(format!("collapsed:form{form}:{}", if self.coded { "coded" } else { "raw" }));
+                    }
+                    Some((prev, pidx)) => {
+                        if idx == *pidx {
+                            return Step::Violation(format!("{what}: differs from the previous item {:?} but returned its index {pidx:?}", prev));
+                        }
+                        self.stored_syms.extend(item.iter().cloned());
+                        self.tags.push(format!("stored:form{form}"));
+                    }
+                    None => {
+                        self.stored_syms.extend(item.iter().cloned());
+                    }
+                }
+                self.last = Some((item.clone(), idx));
+                self.issued.push((idx, item));
+            }
+        }
+        for (k, (idx, item)) in self.issued.iter().enumerate() {
+            let d = &self.dst;
+            match guard(|| d.index(*idx).into_owned()) {
+                Ok(o) if &o == item => {}
+                Ok(o) => return Step::Violation(format!("after {what}: item #{k} pushed {:?} reads {:?}", item, o)),
+                Err(p) => return Step::Violation(format!("after {what}: reading item #{k} panicked: {p}")),
+            }
+        }
         Step::Ok
     }
     fn fingerprint(&self) -> Option<String> {
